@@ -26,6 +26,9 @@
 #endif
 
 #include "kernels/counterkernels/tbfinteractioncounter.hpp"
+#if PERIODIC
+#include "algorithms/periodic/tbfalgorithmperiodictoptree.hpp"
+#endif
 #include "reckernel.hpp"
 
 #ifndef DIM
@@ -40,7 +43,7 @@ constexpr long int Dim = DIM;
 using Config = TbfSpacialConfiguration<RealType, Dim>;
 using SpaceIndex = TbfMortonSpaceIndex<Dim, Config, (PERIODIC != 0)>;
 using Kernel = RecKernel<RealType, SpaceIndex>;
-using Tree = TbfTree<RealType, RealType, Dim, uint16_t, NSLOT, Cnt, Cnt, SpaceIndex>;
+using Tree = TbfTree<RealType, RealType, Dim, slot_t, NSLOT, Cnt, Cnt, SpaceIndex>;
 using Geom = RecGeom<RealType, Dim>;
 
 static long kv(const std::vector<std::string>& ts, const std::string& key, long dflt){
@@ -107,7 +110,7 @@ static void dumpValues(Tree& tree){
     std::map<long, std::string> r;
     tree.applyToAllLeaves([&](auto&& leafHeader, const long int* particleIndexes, auto /*data*/, auto rhs){
         for(long p = 0 ; p < leafHeader.nbParticles ; ++p){
-            uint16_t c[NSLOT];
+            slot_t c[NSLOT];
             for(int s = 0 ; s < NSLOT ; ++s) c[s] = rhs[s][p];
             r[particleIndexes[p]] = hexOfCnt(c);
         }
@@ -273,6 +276,14 @@ static void printCounters(const Algo& algo, unsigned long seed){
     std::cout << "K " << c.P2M << " " << c.M2M << " " << c.M2L << " " << c.L2L << " " << c.L2P << " " << c.P2P << " " << c.P2PInner << " workers_active=" << active << "\n";
 }
 
+// overwrite the stack below the current frame with a fixed pattern so that a read of an
+// uninitialised local in the library shows up as a deterministic, absurd value
+static void __attribute__((noinline)) poisonStack(){
+    volatile unsigned char buf[32768];
+    for(size_t k = 0 ; k < sizeof(buf) ; ++k) buf[k] = 0xAB;
+    asm volatile("" ::: "memory");
+}
+
 static void flushLog(){
     for(auto& s : RecLog::lines()) std::cout << s << "\n";
     for(auto& s : RecLog::errors()) std::cout << s << "\n";
@@ -297,7 +308,7 @@ int main(){
             std::cout << "\n";
         }
         else if(op == "tree"){
-            if(kv(ts, "D", 3) != Dim || kv(ts, "periodic", 0) != PERIODIC){ std::cout << "bad-config\n"; continue; }
+            if(kv(ts, "D", 3) != Dim || kv(ts, "periodic", 0) != PERIODIC || kv(ts, "slotbits", 16) != SLOTBITS){ std::cout << "bad-config\n"; continue; }
             cs.H = kv(ts, "H", 3);
             std::array<RealType, Dim> widths, center;
             for(long d = 0 ; d < Dim ; ++d){ widths[d] = 1; center[d] = 0.5; }
@@ -376,6 +387,41 @@ int main(){
             std::unique_ptr<TbfOpenmpAlgorithm<RealType, CKernel, SpaceIndex>> algo(new TbfOpenmpAlgorithm<RealType, CKernel, SpaceIndex>(*cs.config, kv(ts, "upper", 2)));
             algo->execute(*cs.tree, int(kv(ts, "flags", 63)));
             printCounters(*algo, (unsigned long)kv(ts, "seed", 1));
+            flushLog();
+        }
+#endif
+#if PERIODIC
+        else if(op == "exec" && ts.size() > 1 && ts[1] == "periodic"){
+            // the documented sequence: bottom-to-top, top tree, transfer, top-to-bottom (upper working level 1)
+            const long n = kv(ts, "n", 0);
+            const bool omp = kv(ts, "omp", 0) != 0;
+            using TopAlgo = TbfAlgorithmPeriodicTopTree<RealType, Kernel, Cnt, Cnt, SpaceIndex>;
+            std::unique_ptr<TopAlgo> top(new TopAlgo(*cs.config, n));
+            const auto iv = top->getRepetitionsIntervals();
+            std::cout << "PI " << top->getNbRepetitionsPerDim() << " " << top->getNbTotalRepetitions();
+            for(long d = 0 ; d < Dim ; ++d) std::cout << " " << iv.first[d] << ":" << iv.second[d];
+            std::cout << "\n";
+            auto stage = [&](int flags){
+#ifdef USE_OMP
+                if(omp){
+                    MockConfig mc; mc.schedule = int(kv(ts, "sched", 0)); mc.seed = (unsigned long)kv(ts, "seed", 1); mc.nworkers = int(kv(ts, "workers", 1));
+                    mock_gomp_configure(mc);
+                    std::unique_ptr<TbfOpenmpAlgorithm<RealType, Kernel, SpaceIndex>> algo(new TbfOpenmpAlgorithm<RealType, Kernel, SpaceIndex>(*cs.config, TbfDefaultLastLevelPeriodic));
+                    algo->execute(*cs.tree, flags);
+                    return;
+                }
+#endif
+                (void)omp;
+                std::unique_ptr<TbfAlgorithm<RealType, Kernel, SpaceIndex>> algo(new TbfAlgorithm<RealType, Kernel, SpaceIndex>(*cs.config, TbfDefaultLastLevelPeriodic));
+                algo->execute(*cs.tree, flags);
+            };
+            stage(TbfAlgorithmUtils::TbfBottomToTopStages);
+            RecLog::topTree() = true;
+            poisonStack();
+            top->execute(*cs.tree);
+            RecLog::topTree() = false;
+            stage(TbfAlgorithmUtils::TbfTransferStages);
+            stage(TbfAlgorithmUtils::TbfTopToBottomStages);
             flushLog();
         }
 #endif
